@@ -252,6 +252,8 @@ type Script struct {
 	nfresh int
 	fn     string
 	Quiet  bool // symbolic evaluation under binders: no definitions, assumptions or obligations
+	LemmaSeq int // >0 when this script proves a lemma
+	Passive  bool // definitions as constants with equations instead of macros
 }
 
 // Global holds sorts, datatypes, uninterpreted functions and axioms shared by
@@ -271,6 +273,7 @@ type Axiom struct {
 	Name  string
 	Text  string   // (assert ...)
 	Needs []string // emitted only if all of these symbols occur in the script
+	Seq   int      // >0: exported lemma with this sequence number (usable only by later lemmas)
 }
 
 func newGlobal() *Global {
@@ -297,7 +300,7 @@ func (g *Global) AddAxiom(name, text string, needs ...string) {
 			return
 		}
 	}
-	g.axioms = append(g.axioms, Axiom{name, text, needs})
+	g.axioms = append(g.axioms, Axiom{Name: name, Text: text, Needs: needs})
 }
 
 func (g *Global) StrLit(s string) Term {
@@ -337,7 +340,15 @@ func (s *Script) Define(hint string, t Term) Term {
 	}
 	s.nfresh++
 	name := fmt.Sprintf("%s!%d", sanitize(hint), s.nfresh)
-	s.Lines = append(s.Lines, Line{LDecl, fmt.Sprintf("(define-fun %s () %s %s)", name, t.Sort, t.S), ""})
+	if !s.Passive || (t.Sort == SBool && (strings.Contains(t.S, "(forall ") || strings.Contains(t.S, "(exists "))) {
+		// quantified formulas stay macros (a named constant would put the quantifier in both polarities)
+		s.Lines = append(s.Lines, Line{LDecl, fmt.Sprintf("(define-fun %s () %s %s)", name, t.Sort, t.S), ""})
+		return Term{name, t.Sort}
+	}
+	// a constant with a defining equation (passive form): quantifier patterns then mention
+	// only constants, never the ite/store structure of the definition
+	s.Lines = append(s.Lines, Line{LDecl, fmt.Sprintf("(declare-const %s %s)", name, t.Sort), ""})
+	s.Lines = append(s.Lines, Line{LAssume, fmt.Sprintf("(assert (= %s %s))", name, t.S), ""})
 	return Term{name, t.Sort}
 }
 
@@ -433,6 +444,9 @@ func (o *Obligation) Render(logic string) string {
 		for i, a := range g.axioms {
 			if emittedAx[i] {
 				continue
+			}
+			if a.Seq > 0 && s.LemmaSeq > 0 && a.Seq >= s.LemmaSeq {
+				continue // a lemma may use only lemmas declared before it
 			}
 			ok := true
 			for _, n := range a.Needs {
